@@ -176,3 +176,53 @@ theorem groupedMux_spec (n : Nat) : ∀ (fuel : Nat) (s : List (Nat × Solid K))
           · simp
 
 end M3d.SolidAlg
+
+/-! ### `AllContains`: the bitmap filled by the callbacks -/
+namespace M3d.SolidAlg
+
+theorem getElem?_setFold (idxs : List Nat) : ∀ (res : List Bool) (i : Nat),
+    (idxs.foldl (fun r j => r.set j true) res)[i]?
+      = if i ∈ idxs then res[i]?.map (fun _ => true) else res[i]? := by
+  induction idxs with
+  | nil => intro res i; simp
+  | cons j js ih =>
+    intro res i
+    simp only [List.foldl_cons, ih, List.getElem?_set, List.mem_cons]
+    by_cases hij : j = i
+    · subst hij
+      by_cases hl : j < res.length
+      · simp [hl, List.getElem?_eq_getElem hl]
+      · have : res[j]? = none := List.getElem?_eq_none (by omega)
+        simp [hl, this]
+    · have hij' : ¬ i = j := fun e => hij e.symm
+      simp [hij, hij']
+
+theorem mem_zip_range' {α : Type} : ∀ (l : List α) (k i : Nat) (s : α),
+    (i, s) ∈ (List.range' k l.length).zip l ↔ (k ≤ i ∧ l[i - k]? = some s) := by
+  intro l
+  induction l with
+  | nil => intro k i s; simp
+  | cons a l ih =>
+    intro k i s
+    simp only [List.length_cons, List.range'_succ, List.zip_cons_cons, List.mem_cons, Prod.mk.injEq, ih]
+    constructor
+    · rintro (⟨rfl, rfl⟩ | ⟨h1, h2⟩)
+      · simp
+      · refine ⟨by omega, ?_⟩
+        have : i - k = (i - (k + 1)) + 1 := by omega
+        rw [this, List.getElem?_cons_succ]; exact h2
+    · rintro ⟨h1, h2⟩
+      by_cases e : i = k
+      · subst e
+        simp only [Nat.sub_self, List.getElem?_cons_zero, Option.some.injEq] at h2
+        exact Or.inl ⟨rfl, h2.symm⟩
+      · right
+        refine ⟨by omega, ?_⟩
+        have : i - k = (i - (k + 1)) + 1 := by omega
+        rw [this, List.getElem?_cons_succ] at h2; exact h2
+
+theorem mem_zip_range {α : Type} (l : List α) (i : Nat) (s : α) :
+    (i, s) ∈ (List.range l.length).zip l ↔ l[i]? = some s := by
+  rw [List.range_eq_range', mem_zip_range']; simp
+
+end M3d.SolidAlg
